@@ -142,3 +142,14 @@ Proof. intros d m B hss Hd. unfold op_mprocess. cbv zeta. fold d. fold m. fold (
   rewrite (reuse_eq (@resolve_atol Fq st (opt inn aineq)) st
              (fun a => allb m (fun x => x_is_psd (d * d) (mat_of_rows cz (nth x (map (fun x => rows_of_mat (d * d) (d * d) (x_choi d B (hss x))) (seq 0 m)) [])) a))).
   rewrite !x_mp_cp_eq, !(gate_is_tp_frozen (zb fl) d B _ _ Hd), raises_eq. reflexivity. Qed.
+
+(* ---- origin / zero data: the op returns the model's origin data followed by the model's zero data, element after element *)
+Theorem op_origin_spec (dz mz : Z) (sd : Qc) :
+  let d := Z.to_nat dz in let m := Z.to_nat mz in let n := (d * d)%nat in
+  op_origin [0%Z; dz; mz] [sd] = Ok (list_of_vec n (@state_origin Fq sd) ++ list_of_vec n (@state_zero Fq)) /\
+  op_origin [1%Z; dz; mz] [sd] = Ok (concat (map (fun x => list_of_vec n (@povm_origin Fq sd m x)) (seq 0 m))
+                                     ++ concat (map (fun x => list_of_vec n (@povm_zero Fq x)) (seq 0 m))) /\
+  op_origin [2%Z; dz; mz] [sd] = Ok (flat_of_rmat n n (@gate_origin Fq) ++ flat_of_rmat n n (@gate_zero Fq)) /\
+  op_origin [3%Z; dz; mz] [sd] = Ok (concat (map (fun x => flat_of_rmat n n (@mprocess_origin Fq m x)) (seq 0 m))
+                                     ++ concat (map (fun x => flat_of_rmat n n (@mprocess_zero Fq x)) (seq 0 m))).
+Proof. cbv zeta. split; [reflexivity|]. split; [reflexivity|]. split; reflexivity. Qed.
